@@ -66,6 +66,7 @@ def contexts_for(tokens: list) -> list[str]:
     # `lda.l (e)` is indirect addressing; `lda.l (e) op f` is a direct operand whose text starts with a group
     if tokens[0] != "(" or not group_spans_all(tokens):
         ctxs.append("long24")
+        ctxs.append("dirauto")
     if "|" not in tokens and "~" not in tokens:
         ctxs += DIRECTIVE_CTXS
         if "<<" not in tokens and "*" not in tokens and all(not isinstance(t, int) or t < 64 for t in tokens):
